@@ -217,6 +217,11 @@ fn routing_families(tier: &str, bound: usize, out: &mut Vec<Spec>) {
             scn: Scn::Rr(rr("forged", vec![vec![ReqKind::ForgedTag("1"), ReqKind::ExtraHeader], vec![ReqKind::ForgedTag("zz"), ReqKind::NoHeaders]], vec![vec![]], "rf", ranks.clone(), false, false, false, false, "C02")),
             bound,
         });
+        // header names that differ from the routing tag's only by case
+        out.push(Spec {
+            scn: Scn::Rr(rr("lookalike", vec![vec![ReqKind::LookalikeTags("1"), ReqKind::Plain], vec![ReqKind::LookalikeTags("0")]], vec![vec![]], "rf", ranks.clone(), false, false, false, false, "C02")),
+            bound: bound.saturating_sub(1).max(2),
+        });
         // adversarial replies in the middle of a normal exchange
         out.push(Spec {
             scn: Scn::Rr(rr(
@@ -333,6 +338,12 @@ fn shutdown_families(bound: usize, out: &mut Vec<Spec>) {
     out.push(Spec { scn: Scn::Rr(rr("only-requestors", vec![plain(1)], vec![], "qf", vec![0], false, true, false, false, "C16")), bound });
     out.push(Spec { scn: Scn::Rr(rr("only-replier", vec![], vec![vec![]], "rf", vec![], false, true, false, false, "C16")), bound });
     out.push(Spec { scn: Scn::Rr(rr("reject", vec![plain(1)], vec![vec![], vec![]], "rf", vec![0], false, true, false, false, "C16")), bound });
+    // a long backlog at the moment of the close: shutdown must not wait for the publishers to pause
+    for (pubs, subs, order) in [(&[40usize][..], 1usize, "sf"), (&[25, 25][..], 2, "pf")] {
+        let mut p = ps(pubs, subs, order, false, true, false);
+        p.owner = Some("C16");
+        out.push(Spec { scn: Scn::Ps(p), bound: 2 });
+    }
     // sinks that may refuse more data while holding nothing unflushed
     out.push(Spec { scn: Scn::Rr(rr_gated(rr("basic", vec![plain(2)], vec![vec![]], "rf", vec![0], false, true, false, false, "C16"))), bound });
     out.push(Spec { scn: Scn::Rr(rr_gated(rr("two", vec![plain(1), plain(1)], vec![vec![]], "rf", vec![0, 1], false, true, false, false, "C16"))), bound: bound.saturating_sub(1).max(2) });
